@@ -29,7 +29,12 @@ pub fn line_changes_from_diff(
             continue;
         }
         result.insert(
-            patched_file.target_file.trim_start_matches("b/").into(),
+            // Git prefixes the new path with a single "b/"; the path itself may start with "b/" too.
+            patched_file
+                .target_file
+                .strip_prefix("b/")
+                .unwrap_or(&patched_file.target_file)
+                .into(),
             line_changes(&patched_file),
         );
     }
